@@ -231,3 +231,97 @@ Definition evals_M (ds : list docarg) (args : list arg) : list N :=
           pass2_evals ds M2Req b
       end
   end.
+
+(* ---- default FORMS that read an earlier parameter (round 5) ----
+   Until round 4 the model saw a default form as the literal it evaluates to.  Lambda.Call evaluates the form of
+   an unsupplied parameter in "cur", the innermost of the scopes built so far: the parameters bound from the
+   arguments by pass 1 AND every parameter pass 2 has defaulted before it.  A form is now either a literal or
+   FRef y k, standing for the Lisp form (if (integerp y) (+ y k) nil): the integer value of variable y plus k,
+   nil when y holds something that is no integer, the condition unbound-variable when y is not bound in the
+   scope the form is evaluated in. *)
+Inductive dform := FLit (z : Z) | FRef (y : N) (k : Z).
+Record xdocarg := { x_name : pname; x_def : option dform }.
+Inductive xoutcome := XO (o : outcome) | XUnbound (y : N).
+
+(* the value of a form where the variables are looked up with look: None = unbound variable *)
+Definition form_val (look : N -> option value) (f : dform) : option (option Z) :=
+  match f with
+  | FLit z => Some (Some z)
+  | FRef y k => match look y with
+                | Some (VInt z) => Some (Some (z + k)%Z)
+                | Some _ => Some None
+                | None => None
+                end
+  end.
+Definition form_var (f : dform) : N := match f with FRef y _ => y | FLit _ => 0%N end.
+(* the entry without its form (pass 1 and the section bookkeeping never look at the form) *)
+Definition strip (ad : xdocarg) : docarg := {| d_name := x_name ad; d_def := None |}.
+(* the entry as pass 2 sees it at the moment it gets there: the form replaced by its value in the current scope *)
+Definition lit1 (look : N -> option value) (ad : xdocarg) : option docarg :=
+  match x_def ad with
+  | None => Some (strip ad)
+  | Some f => match form_val look f with
+              | Some v => Some {| d_name := x_name ad; d_def := v |}
+              | None => None
+              end
+  end.
+(* does pass 2 evaluate the form of this entry: "if !bound(name) { bindDefault(...) }" in the &optional, &rest and
+   &key sections, always in the &aux section *)
+Definition needs_eval (m : mode2) (b : list (N * value)) (ad : xdocarg) : bool :=
+  match x_name ad, m with
+  | PVar x, (M2Opt | M2Rest | M2Key) => match lookup b x with None => true | Some _ => false end
+  | PVar x, M2Aux => true
+  | _, _ => false
+  end.
+Definition next_mode2 (n : pname) (m : mode2) : mode2 :=
+  match m with
+  | M2Req => match n with POptional => M2Opt | PRest => M2Rest | PKey => M2Key | PAux => M2Aux | _ => M2Req end
+  | M2Opt => match n with PRest => M2Rest | PKey => M2Key | PAux => M2Aux | _ => M2Opt end
+  | M2Rest => match n with PKey => M2Key | PAux => M2Aux | _ => M2Rest end
+  | M2Key => match n with PAux => M2Aux | _ => M2Key end
+  | M2Aux => M2Aux
+  end.
+(* one entry of pass 2: the form (if it is evaluated at all) is evaluated in the scope b built so far, then the
+   entry is handled as pass2 handles an entry with that literal *)
+Definition pass2x_step (m : mode2) (b : list (N * value)) (ad : xdocarg) : list (N * value) + N :=
+  if needs_eval m b ad
+  then match lit1 (lookup b) ad with
+       | Some lad => inl (pass2 [lad] m b)
+       | None => inr (match x_def ad with Some f => form_var f | None => 0%N end)
+       end
+  else inl (pass2 [strip ad] m b).
+Fixpoint pass2x (ds : list xdocarg) (m : mode2) (b : list (N * value)) : list (N * value) + N :=
+  match ds with
+  | [] => inl b
+  | ad :: ds' => match pass2x_step m b ad with
+                 | inl b1 => pass2x ds' (next_mode2 (x_name ad) m) b1
+                 | inr y => inr y
+                 end
+  end.
+Definition xparams (ds : list xdocarg) : list N := params (map strip ds).
+Definition report (b : list (N * value)) (ps : list N) : list (N * value) :=
+  map (fun x => (x, match lookup b x with Some v => v | None => VUnbound end)) ps.
+Definition bind_Mx (xs : list xdocarg) (args : list arg) : xoutcome :=
+  let ds := map strip xs in
+  let st := pass1 (key_params ds) (has_allow ds) ds MReq {| p_args := args; p_b := []; p_rest := []; p_restsym := None; p_err := None |} in
+  match p_err st with
+  | Some k => XO (OErr k)
+  | None =>
+      match p_args st with
+      | _ :: _ => XO (OErr KTooMany)
+      | [] =>
+          if (length args <? req_count ds)%nat then XO (OErr KTooFew) else
+          let b := match p_rest st, p_restsym st with
+                   | _ :: _, Some r => bind (p_b st) r (VList (p_rest st))
+                   | _, _ => p_b st end in
+          match pass2x xs M2Req b with
+          | inl b' => XO (OBound (report b' (params ds)))
+          | inr y => XUnbound y
+          end
+      end
+  end.
+(* which forms are evaluated does not depend on what they evaluate to: every form stands as "some default" *)
+Definition shape (ad : xdocarg) : docarg :=
+  {| d_name := x_name ad; d_def := match x_def ad with Some _ => Some 0%Z | None => None end |}.
+Definition evals_Mx (xs : list xdocarg) (args : list arg) : list N :=
+  match bind_Mx xs args with XO _ => evals_M (map shape xs) args | XUnbound _ => [] end.
